@@ -55,6 +55,30 @@ type c03BNode struct {
 	SkipAny any                  `dials:"-"`
 }
 
+// c03RNode is family "R": like family A, but every reference between nodes is
+// of the DEFINED pointer type c03RRef (type c03RRef *c03RNode) instead of the
+// unnamed *c03RNode: struct fields, slice/array elements, map values and the
+// pointers held in interface values. A defined pointer type is a pointer type
+// like any other (reflect.Kind Pointer), but reflect.PointerTo(node) is a
+// different type. Deep copier only (the type recurses through a direct field).
+type c03RRef *c03RNode
+
+type c03RNode struct {
+	ID      int
+	Next    c03RRef
+	Kids    []c03RRef
+	Pair    [2]c03RRef
+	M       map[string]c03RRef
+	MM      map[string]map[string]c03RRef
+	Any     any
+	Leaf    *int
+	MA      map[string][2]c03RRef
+	Skip    c03RRef            `dials:"-"`
+	SkipM   map[string]c03RRef `dials:"-"`
+	SkipS   []c03RRef          `dials:"-"`
+	SkipAny any                `dials:"-"`
+}
+
 // c03Holder / c03BHolder hold nodes BY VALUE (a struct-typed field, the
 // elements of an array and of a slice arena) ahead of the fields that refer
 // to them by pointer. The deep copier registers a by-value struct's address
@@ -118,8 +142,12 @@ func idx0(t reflect.Type, n string) int {
 	return sf.Index[0]
 }
 
-func c03MakeFam(name string, node reflect.Type) *c03Fam {
-	f := &c03Fam{name: name, node: node, ptr: reflect.PointerTo(node)}
+// c03MakeFam: ptr is the type every reference to a node has (nil: *node).
+func c03MakeFam(name string, node reflect.Type, ptr reflect.Type) *c03Fam {
+	if ptr == nil {
+		ptr = reflect.PointerTo(node)
+	}
+	f := &c03Fam{name: name, node: node, ptr: ptr}
 	f.slice = reflect.SliceOf(f.ptr)
 	f.arr = reflect.ArrayOf(2, f.ptr)
 	f.arrSlice = reflect.SliceOf(f.arr)
@@ -148,13 +176,17 @@ func c03MakeFam(name string, node reflect.Type) *c03Fam {
 }
 
 var (
-	c03FamA = c03MakeFam("A", reflect.TypeOf(c03Node{}))
-	c03FamB = c03MakeFam("B", reflect.TypeOf(c03BNode{}))
+	c03FamA = c03MakeFam("A", reflect.TypeOf(c03Node{}), nil)
+	c03FamB = c03MakeFam("B", reflect.TypeOf(c03BNode{}), nil)
+	c03FamR = c03MakeFam("R", reflect.TypeOf(c03RNode{}), reflect.TypeOf(c03RRef(nil)))
 )
 
 func c03FamOf(name string) *c03Fam {
-	if name == "B" {
+	switch name {
+	case "B":
 		return c03FamB
+	case "R":
+		return c03FamR
 	}
 	return c03FamA
 }
@@ -270,12 +302,12 @@ func c03Build(p *c03Plan) *c03Built {
 			default:
 				loc = h.FieldByName("Arena").Index(k - 3)
 			}
-			b.nodes[ni] = loc.Addr()
+			b.nodes[ni] = loc.Addr().Convert(f.ptr)
 		}
 	}
 	for i := range p.Nodes {
 		if !b.nodes[i].IsValid() {
-			b.nodes[i] = reflect.New(f.node)
+			b.nodes[i] = reflect.New(f.node).Convert(f.ptr)
 		}
 		b.nodes[i].Elem().Field(f.fID).SetInt(int64(100 + i))
 	}
@@ -707,7 +739,7 @@ func c03GenPlan(r *fw.Rand, fam string, o c03GenOpts) *c03Plan {
 		np.Next, np.M, np.MM, np.Leaf, np.Skip, np.SkipM, np.MA = -1, -1, -1, -1, -1, -1, -1
 		np.SkipAny = c03AnyPlan{K: "nil"}
 		np.Pair = [2]int{-1, -1}
-		if fam == "A" && r.Chance(density+20) {
+		if fam != "B" && r.Chance(density+20) {
 			np.Next = r.Intn(n)
 		}
 		if r.Chance(density + 25) {
